@@ -71,4 +71,23 @@ theorem iseye_3_true (hs : P.Sqrt) : Gen.iseye_3 P (one3 : Mat 3 3 R) = .ok true
     have h1 := hs.mul_self 0 le_rfl; exact mul_self_eq_zero.mp h1
   unfold Gen.iseye_3; simp [one3, this]
 
+set_option maxHeartbeats 2000000
+
+/-- homtrans on a 3×N array transforms every column as a point: entry (i, j) is (T·[p_j; 1])_i / (T·[p_j; 1])_3 -/
+def htEntry {N : Nat} (T : Mat 4 4 R) (p : Mat 3 N R) (i : Fin 3) (j : Fin N) : R :=
+  (T i.castSucc 0 * p 0 j + T i.castSucc 1 * p 1 j + T i.castSucc 2 * p 2 j + T i.castSucc 3) /
+  (T 3 0 * p 0 j + T 3 1 * p 1 j + T 3 2 * p 2 j + T 3 3)
+
+theorem homtrans_3x2 (T : Mat 4 4 R) (p : Mat 3 2 R) : ∀ M, Gen.homtrans_3x2 P T p = .ok M → ∀ i j, M i j = htEntry T p i j := by
+  intro M h i j; unfold Gen.homtrans_3x2 at h; simp only [] at h; cases h
+  fin_cases i <;> fin_cases j <;> simp [htEntry]
+theorem homtrans_3x3 (T : Mat 4 4 R) (p : Mat 3 3 R) : ∀ M, Gen.homtrans_3x3 P T p = .ok M → ∀ i j, M i j = htEntry T p i j := by
+  intro M h i j; unfold Gen.homtrans_3x3 at h; simp only [] at h; cases h
+  fin_cases i <;> fin_cases j <;> simp [htEntry]
+theorem homtrans_3x4 (T : Mat 4 4 R) (p : Mat 3 4 R) : ∀ M, Gen.homtrans_3x4 P T p = .ok M → ∀ i j, M i j = htEntry T p i j := by
+  intro M h i j; unfold Gen.homtrans_3x4 at h; simp only [] at h; cases h
+  fin_cases i <;> fin_cases j <;> simp [htEntry]
+theorem homtrans_3x1 (T : Mat 4 4 R) (p : Mat 3 1 R) : ∀ M, Gen.homtrans_3x1 P T p = .ok M → ∀ i j, M i j = htEntry T p i j := by
+  intro M h i j; unfold Gen.homtrans_3x1 at h; simp only [] at h; cases h
+  fin_cases i <;> fin_cases j <;> simp [htEntry]
 end SmVerif.Props.Structure
